@@ -9,6 +9,7 @@
 From Verif Require Import Base.GoSem Base.F32 Geom.Matrix Geom.TransformSpec Geom.MatrixProofs.
 From Verif Require Import Geom.SvgPath Geom.Shapes Geom.UseGraph Geom.SvgPathSpec.
 From Verif Require Import Geom.SvgPathProofs Geom.ShapesProofs Geom.UseGraphProofs Geom.SvgLexProofs Geom.SvgPathEndToEnd.
+From Verif Require Import Geom.SvgArcSpec Geom.SvgArc Geom.SvgArcProofs Geom.SvgUnits Geom.SvgUnitsProofs.
 From Coq Require Import QArith List NArith ZArith.
 Import ListNotations.
 Open Scope Q_scope.
@@ -147,8 +148,7 @@ Qed.
 
 (* arcs (every arithmetic instance): the segment starts at the current point
    and ends exactly at the given point; identical end points: omitted; a zero
-   radius: a straight line.  (That interior points lie on the ellipse is not
-   modelled.) *)
+   radius: a straight line.  (The ellipse the arc lies on: C18_arc_* below.) *)
 Theorem C18_arc_endpoints : forall (ar : arith) (rel : bool) (rx ry rot la sw x y : Q) (s : pst),
   let ex := if rel then add ar x (curx s) else x in
   let ey := if rel then add ar y (cury s) else y in
@@ -160,6 +160,135 @@ Theorem C18_arc_endpoints : forall (ar : arith) (rel : bool) (rx ry rot la sw x 
                      else OArc (curx s) (cury s) rx ry rot la sw ex ey.
 Proof. exact arc_endpoints. Qed.
 Print Assumptions C18_arc_endpoints.
+
+(* ------------------------------------------------------------------ *)
+(* the ellipse an arc lies on (Geom/SvgArcSpec.v = SVG implementation notes
+   F.6.5 / F.6.6 over Q).  cos / sin of the x-axis-rotation are two rationals
+   c, s with c^2 + s^2 = 1; a square root is a rational constrained by its
+   defining equation (is_root k: k >= 0, k^2 Lambda = 1 - Lambda; is_scale l:
+   l > 0, l^2 = Lambda).  on_ellipse is the implicit equation; arc_pred is the
+   root-free membership predicate and arc_dev the number (= 1 on the ellipse)
+   that Check/C18.v evaluates, within a tolerance, on the junction points and
+   the mid-curve points of the cubics /repo emits for every generated arc.
+
+   Not proved (run-time checks only): that the emitted points are met in the
+   sweep direction from the start to the end point without passing it (the
+   parameter values come from math.Atan2 and are not modelled); that a cubic
+   stays within the tolerance of the arc between its end points; that the
+   float64 / binary32 evaluation of these formulas stays within the tolerance;
+   that the Taylor polynomials validating the cos / sin oracle approximate the
+   real functions. *)
+
+(* F.6.6.2: an ellipse with the given radii and rotation through both end
+   points exists only if Lambda <= 1; its centre is then on the perpendicular
+   bisector of the chord at normalised distance sqrt (1 - Lambda) *)
+Theorem C18_arc_lambda_criterion : forall x1 y1 rx ry c s x2 y2, 0 < rx -> 0 < ry ->
+  forall cx cy, on_ellipse c s rx ry cx cy x1 y1 -> on_ellipse c s rx ry cx cy x2 y2 ->
+  lambda x1 y1 rx ry c s x2 y2 <= 1 /\
+  sq (nu x1 y1 rx c s x2 y2 cx cy) + sq (nv x1 y1 ry c s x2 y2 cx cy) == 1 - lambda x1 y1 rx ry c s x2 y2 /\
+  nu x1 y1 rx c s x2 y2 cx cy * a1 x1 y1 rx c s x2 y2 + nv x1 y1 ry c s x2 y2 cx cy * b1 x1 y1 ry c s x2 y2 == 0.
+Proof. exact lambda_criterion. Qed.
+Print Assumptions C18_arc_lambda_criterion.
+
+(* F.6.6.3: radii scaled by sqrt Lambda: the chord is a diameter -- the ellipse
+   about the chord's midpoint passes through both end points, it is the only
+   one, and a smaller scale factor admits none *)
+Theorem C18_arc_scaled_radii : forall x1 y1 rx ry c s x2 y2, 0 < rx -> 0 < ry -> sq c + sq s == 1 ->
+  (forall l, is_scale x1 y1 rx ry c s x2 y2 l ->
+     (on_ellipse c s (l * rx) (l * ry) (mid_x x1 x2) (mid_y y1 y2) x1 y1 /\
+      on_ellipse c s (l * rx) (l * ry) (mid_x x1 x2) (mid_y y1 y2) x2 y2) /\
+     (forall cx cy, on_ellipse c s (l * rx) (l * ry) cx cy x1 y1 -> on_ellipse c s (l * rx) (l * ry) cx cy x2 y2 ->
+        cx == mid_x x1 x2 /\ cy == mid_y y1 y2)) /\
+  (forall l' cx cy, 0 < l' -> sq l' < lambda x1 y1 rx ry c s x2 y2 ->
+     ~ (on_ellipse c s (l' * rx) (l' * ry) cx cy x1 y1 /\ on_ellipse c s (l' * rx) (l' * ry) cx cy x2 y2)).
+Proof. exact arc_scaled_radii. Qed.
+Print Assumptions C18_arc_scaled_radii.
+
+(* the root-free predicate, and the number the correspondence evaluates, are
+   the implicit equation of the ellipse of F.6.5 (Lambda <= 1: given radii,
+   centre of F.6.5.3) resp. F.6.6 (Lambda > 1: scaled radii, centre = midpoint) *)
+Theorem C18_arc_pred_spec : forall x1 y1 rx ry c s fa fs x2 y2, 0 < rx -> 0 < ry -> sq c + sq s == 1 ->
+  ~ (x1 == x2 /\ y1 == y2) ->
+  (forall k px py, lambda x1 y1 rx ry c s x2 y2 <= 1 -> is_root x1 y1 rx ry c s x2 y2 k ->
+     (on_ellipse c s rx ry (centre_x x1 y1 rx ry c s fa fs x2 y2 k) (centre_y x1 y1 rx ry c s fa fs x2 y2 k) px py
+      <-> arc_pred x1 y1 rx ry c s fa fs x2 y2 px py) /\
+     (arc_dev x1 y1 rx ry c s fa fs x2 y2 k px py == 1 <-> arc_pred x1 y1 rx ry c s fa fs x2 y2 px py)) /\
+  (forall l k px py, 1 < lambda x1 y1 rx ry c s x2 y2 -> is_scale x1 y1 rx ry c s x2 y2 l ->
+     (on_ellipse c s (l * rx) (l * ry) (mid_x x1 x2) (mid_y y1 y2) px py
+      <-> arc_pred x1 y1 rx ry c s fa fs x2 y2 px py) /\
+     (arc_dev x1 y1 rx ry c s fa fs x2 y2 k px py == 1 <-> arc_pred x1 y1 rx ry c s fa fs x2 y2 px py)).
+Proof. exact arc_pred_spec. Qed.
+Print Assumptions C18_arc_pred_spec.
+
+(* both end points satisfy the predicate (so ending exactly at the given point
+   is consistent with lying on the ellipse), in both regimes *)
+Theorem C18_arc_endpoints_on_ellipse : forall x1 y1 rx ry c s fa fs x2 y2, 0 < rx -> 0 < ry ->
+  arc_pred x1 y1 rx ry c s fa fs x2 y2 x1 y1 /\ arc_pred x1 y1 rx ry c s fa fs x2 y2 x2 y2.
+Proof. exact arc_pred_endpoints. Qed.
+Print Assumptions C18_arc_endpoints_on_ellipse.
+
+(* F.6.3: every point of the centre parameterisation satisfies the implicit
+   equation, and the parameterisation preserves orientation (so do the
+   normalised coordinates the correspondence tests the cyclic order in) *)
+Theorem C18_arc_parameterisation : forall c s rx ry cx cy, sq c + sq s == 1 ->
+  (forall ct st, ~ rx == 0 -> ~ ry == 0 -> sq ct + sq st == 1 ->
+     on_ellipse c s rx ry cx cy (ellipse_x c s rx ry cx ct st) (ellipse_y c s rx ry cy ct st)) /\
+  (forall ca sa cb sb cc sc,
+     orient (ellipse_x c s rx ry cx ca sa) (ellipse_y c s rx ry cy ca sa)
+            (ellipse_x c s rx ry cx cb sb) (ellipse_y c s rx ry cy cb sb)
+            (ellipse_x c s rx ry cx cc sc) (ellipse_y c s rx ry cy cc sc)
+     == rx * ry * orient ca sa cb sb cc sc).
+Proof. exact arc_parameterisation. Qed.
+Print Assumptions C18_arc_parameterisation.
+
+(* the flags: seen from the centre of F.6.5.3 the signed area spanned by start
+   and end point is 2 sigma k Lambda rx ry; hence sweeping in the direction of
+   the sweep flag covers less than a half turn iff the large-arc flag is off *)
+Theorem C18_arc_flags : forall x1 y1 rx ry c s fa fs x2 y2 k, 0 < rx -> 0 < ry -> sq c + sq s == 1 ->
+  ~ (x1 == x2 /\ y1 == y2) -> 0 < k ->
+  let o := orient (centre_x x1 y1 rx ry c s fa fs x2 y2 k) (centre_y x1 y1 rx ry c s fa fs x2 y2 k) x1 y1 x2 y2 in
+  o == 2 * sigma fa fs * k * lambda x1 y1 rx ry c s x2 y2 * rx * ry /\
+  (fs = true -> (0 < o <-> fa = false)) /\ (fs = false -> (o < 0 <-> fa = false)).
+Proof. exact arc_flags. Qed.
+Print Assumptions C18_arc_flags.
+
+(* the implementation's algebra (Geom/SvgArc.v: addArcFromA, findEllipseCenter,
+   ellipsePointAt, with math.Sqrt / Cos / Sin values as oracle arguments
+   constrained by their defining equations): for radii of either sign, every
+   flag combination and rotation, in both regimes, findEllipseCenter returns
+   the ellipse of F.6.5 / F.6.6 and every point ellipsePointAt computes on it --
+   whatever the parameter value -- satisfies the arc's predicate *)
+Theorem C18_arc_model_spec : forall x1 y1 rx ry c s fa fs x2 y2 r_m r_h,
+  ~ rx == 0 -> ~ ry == 0 -> sq c + sq s == 1 -> ~ (x1 == x2 /\ y1 == y2) ->
+  let L := lambda x1 y1 (arc_abs rx) (arc_abs ry) c s x2 y2 in
+  (0 <= r_m /\ sq r_m == sq (arc_abs ry) * L) ->
+  (L <= 1 -> 0 <= r_h /\ sq r_h == sq (arc_abs ry) - sq (arc_abs ry) * L) ->
+  (let o := arc_centre c s r_m r_h rx ry (flagq fa) (flagq fs) x1 y1 x2 y2 in
+   arc_ellipse x1 y1 (arc_abs rx) (arc_abs ry) c s fa fs x2 y2 (o_ra o) (o_rb o) (o_cx o) (o_cy o)) /\
+  (forall ce se, sq ce + sq se == 1 ->
+   let p := arc_point c s r_m r_h rx ry (flagq fa) (flagq fs) x1 y1 x2 y2 ce se in
+   arc_pred x1 y1 (arc_abs rx) (arc_abs ry) c s fa fs x2 y2 (fst p) (snd p)).
+Proof. exact arc_model_spec. Qed.
+Print Assumptions C18_arc_model_spec.
+
+(* non-vacuity (rational roots exist).
+   (a) M0 0 A13 13 phi 0 1 6 8 with (cos phi, sin phi) = (3/5, 4/5): chord 10,
+       Lambda = 25/169, k = 12/5, sqrt(midlenSq) = 5, sqrt(rb^2 - midlenSq) = 12:
+       radii unchanged, centre (3 - 48/5, 4 + 36/5);
+   (b) M0 0 A-2 1 0 0 1 8 0 (sign of rx dropped): Lambda = 4, sqrt(midlenSq) = 2:
+       radii scaled by 2 to (4, 2), centre (4, 0); the point of parameter
+       (cos, sin) = (3/5, 4/5) is (4 + 12/5, 8/5) and has arc_dev = 1 *)
+Example C18_arc_example :
+  lambda 0 0 13 13 (3 # 5) (4 # 5) 6 8 == 25 # 169 /\
+  is_root 0 0 13 13 (3 # 5) (4 # 5) 6 8 (12 # 5) /\
+  (let o := arc_centre (3 # 5) (4 # 5) 5 12 13 13 0 1 0 0 6 8 in
+   o_ra o == 13 /\ o_rb o == 13 /\ o_cx o == - (33 # 5) /\ o_cy o == 56 # 5) /\
+  lambda 0 0 2 1 1 0 8 0 == 4 /\ is_scale 0 0 2 1 1 0 8 0 2 /\
+  (let o := arc_centre 1 0 2 0 (-2) 1 0 1 0 0 8 0 in
+   o_ra o == 4 /\ o_rb o == 2 /\ o_cx o == 4 /\ o_cy o == 0) /\
+  (let p := arc_point 1 0 2 0 (-2) 1 0 1 0 0 8 0 (3 # 5) (4 # 5) in
+   fst p == 32 # 5 /\ snd p == 8 # 5 /\ arc_dev 0 0 2 1 1 0 false true 8 0 0 (fst p) (snd p) == 1).
+Proof. vm_compute. repeat split; try reflexivity; try discriminate. Qed.
 
 (* ------------------------------------------------------------------ *)
 (* basic shapes *)
@@ -208,6 +337,23 @@ Example C18_rect_example :
           (0, 0 + 4 - Qmin 8 (4 / 2)); (0, 0 + Qmin 8 (4 / 2)); (0 + Qmin 8 (10 / 2), 0)]
   /\ Qmin 8 (10 / 2) == 5 /\ Qmin 8 (4 / 2) == 2.
 Proof. repeat split. Qed.
+
+(* lengths with units in the geometry attributes (Geom/SvgUnits.v): Value.Resolve
+   gives px, cm, mm, Q, pt, pc, in, em, ex and percentages the number of user
+   units CSS Values 3 / SVG 1.1 7.10 define (96px = 1in = 2.54cm = 72pt = 6pc,
+   1cm = 10mm = 40Q, ex = em / 2, x-percentages of the viewport width,
+   y-percentages of its height) *)
+Theorem C18_units_spec : forall (x : uval) (font ref : Q),
+  resolve_len exactQ (fun q => q) x font ref == length_spec x font ref.
+Proof. exact resolve_len_spec. Qed.
+Print Assumptions C18_units_spec.
+
+Example C18_units_example :
+  length_spec (UV 2 UCm) 16 100 == 9600 # 127 /\ length_spec (UV 3 UPc) 16 100 == 48 /\
+  length_spec (UV 25 UPerc) 16 80 == 20 /\ length_spec (UV 3 UEx) 16 80 == 24 /\
+  resolve_shape exactQ (fun q => q) (mkdims 16 200 100) (UCircle (UV 50 UPerc) (UV 50 UPerc) (UV 1 UEm))
+  = ShEllipse (50 * 200 / 100) (50 * 100 / 100) (1 * 16) (1 * 16).
+Proof. repeat split; reflexivity. Qed.
 
 (* ------------------------------------------------------------------ *)
 (* viewBox / preserveAspectRatio (svg.go:332-377) = SVG 1.1 section 7.8 *)
